@@ -187,7 +187,7 @@ def build(tier, seed):
                              'minimum-duration-plus-one-sample', 'two-sample-record', 'near-equal-steps', 'near-integer-quotient',
                              'time-scale-small', 'time-scale-large', 'integer-typed-steps', 'value-scale-1e-09', 'value-scale-1e+06',
                              'container-i64', 'container-i16', 'container-u8', 'container-f32', 'container-list',
-                             'container-tuple', 'object-history-longer-before', 'object-history-shorter-before', 'a-b-a',
+                             'container-tuple', 'object-history-longer-before', 'object-history-shorter-before', 'a-b-a', 'option-flip-sequence',
                              'returned-array-overwritten', 'default-after-explicit',
                              'long-record', 'long-pow2', 'long-pow2-minus-1', 'long-pow2-plus-1', 'long-pow10',
                              'long-above-2**15-5-smooth', 'long-above-2**15-not-5-smooth', 'long-above-2**16',
@@ -609,6 +609,16 @@ def run_sequences(r, base, dt, tg, n, even, rec_a):
                      'third call (A, B, A; first result overwritten by the caller) differs from the first', observed=vals,
                      expected=first[0])
     r.expect('argument-unchanged', sub, same_bits(A, snapA), 'argument array modified', observed=A, expected=snapA)
+    # the other parity option first, then this one, then the other again (same record, same steps)
+    r.cls('option-flip-sequence')
+    for step, ev in (('other-option', not even), ('this-option', even), ('other-option-again', not even)):
+        s2 = dict(sub, step=step, even_of_this_call=ev)
+        r.states += 1
+        ok, res = r.call('interp.returns', s2, time_step.interp_array_to_approx_dt, A, dt, target_dt=tg, even=ev)
+        if ok:
+            ok, vals, ndt = interp_pair(r, s2, res)
+            if ok:
+                check_interp(r, 'interp', s2, A.copy(), dt, tg, ev, vals, ndt)
     # default options after explicit ones (target_dt=0.01, even=True are the documented defaults)
     if in_domain(dt, 0.01, n):
         r.cls('default-after-explicit')
@@ -736,7 +746,9 @@ def run_case(case):
     if not long_:
         for sc in VALUE_SCALES:
             records.append(('smooth*%.0e' % sc, [sc * v for v in smooth(n)]))
-    for even in (True, False):
+    # the order of the two options alternates with the parity of the length (odd lengths, whose natural refined length can be odd,
+    # see even=False first): anything kept between calls must not let the first request decide the parity of the next
+    for even in ((True, False) if n % 2 == 0 else (False, True)):
         fam_done = False
         base0 = {'dt': dt, 'target': tg, 'n': n, 'even': even}
         if not long_:
